@@ -6,7 +6,7 @@ refuted for the code as it is), redraw covers old and new box, mask dilation, sh
 Tie: (a) sraClipRect2 and the protocol constants are re-translated from /repo on every run;
 (b) correspondence: the extracted model and the real library (rfbShowCursor/rfbHideCursor called on a real
 client, real update sessions over socketpairs) run the same scripts, every observable compared.  The model
-carries, beside the code of the tree, the variants before the fixes 1a3b6d2 / 0775c26 / 2b32386 (F15, F15b, F15c);
+carries, beside the code of the tree, the variants before the fixes 1a3b6d2 / 0775c26 / 2b32386 / 8f58d2d (F15, F15b, F15c, F15d);
 the run uses the tree's variant and names a regression when dropping one repair explains a disagreement.
 Independently of the mirror model the property predicate (framebuffer restored; picture = overlay) is
 evaluated in Python on the implementation's own output.
@@ -709,8 +709,8 @@ def run_model(mexe, cases, variant=""):
     return run_model_cases(mexe, cases, variant)
 
 
-PROPOSED = ["cache"]       # notes/fix_C15_4.diff (F15d), not in the tree
-REPAIRS = ["clip", "empty", "switch"]      # /repo commits 1a3b6d2, 0775c26, 2b32386 (were notes/fix_C15_1.._3.diff)
+PROPOSED = []
+REPAIRS = ["clip", "empty", "switch", "cache"]      # /repo commits 1a3b6d2, 0775c26, 2b32386, 8f58d2d (were notes/fix_C15_1.._4.diff)
 
 
 def case_kind(c):
@@ -743,8 +743,8 @@ def check(ctx):
     tree = list(REPAIRS)
     mm0 = mism(",".join(tree))
     mismatches, chosen = mm0, tree
-    if mismatches:
-        cand = mism(",".join(tree + PROPOSED))      # has the proposed repair fix_C15_4 been applied?
+    if mismatches and PROPOSED:
+        cand = mism(",".join(tree + PROPOSED))      # has a proposed repair been applied?
         if len(cand) < len(mismatches):
             mismatches, chosen = cand, tree + PROPOSED
             if not cand:
